@@ -10,6 +10,19 @@ from qvc.main import Plan
 from qvc.spec import Contract
 from qvc import lean
 
+META = dict(
+    category="proof",
+    text=("Every block-distribution helper is proved against a contract whose postcondition is the partition "
+          "statement of the property (first block starts at start, last ends at stop, consecutive blocks contiguous, "
+          "sizes within one of each other, empty range gives empty blocks, each helper returns exactly the caller's "
+          "block) for all process counts, ranks, starts and stops with no bound: the rank loop is summarised from "
+          "the AST, z3 discharges the non-linear integer obligations; a Lean lemma then gives, for every P and every "
+          "summand, that the sum over ranks of per-block sums equals the serial sum."),
+    note="MPI itself (Allreduce as the sum over ranks) is not modelled; asynchronous_range is outside the subset.",
+    technique="VCs from the real AST (map-loop summary of the rank loop, modular call rule) discharged by z3; "
+              "sum-over-blocks lemma in Lean 4/Mathlib with hypotheses printed from the contract clauses",
+)
+
 PAR = "quantarhei/core/parallel.py::"
 MGR = "quantarhei/core/managers.py::"
 
@@ -269,6 +282,63 @@ sys.exit(1 if bad else 0)
     return None
 
 
+# ---- sum-reduction over blocks equals the serial sum ------------------------------------------------
+# z3: partition (the postcondition of _calculate_ranges) |- the hypotheses of the Lean lemma, with lo[k] := R[k][0],
+# hi[k] := R[k][1];  Lean: those hypotheses |- the sum identity, for every P and every summand f.
+SUM_TYPES = {"P": "int", "start": "int", "stop": "int", "lo": "iarr1", "hi": "iarr1", "f": "arr1"}
+SUM_HYPS = [("hP", "1 <= P"),
+            ("h_first", "lo[0] == start"),
+            ("h_last", "hi[P-1] == stop"),
+            ("h_contig", "forall(k, range(0, P-1), hi[k] == lo[k+1])"),
+            ("h_mono", "forall(k, range(0, P), lo[k] <= hi[k])")]
+SUM_CONCL = "Sum(r, range(0, P), Sum(k, range(lo[r], hi[r]), f[k])) == Sum(k, range(start, stop), f[k])"
+SUM_PROOF = """
+have key : ∀ m : ℕ, ((m:ℤ) + 1 ≤ P) →
+    (∑ r ∈ Finset.Ico (0:ℤ) ((m:ℤ)+1), ∑ k ∈ Finset.Ico (lo r) (hi r), f k
+      = ∑ k ∈ Finset.Ico (lo 0) (hi (m:ℤ)), f k) ∧ lo 0 ≤ hi (m:ℤ) := by
+  intro m
+  induction m with
+  | zero =>
+    intro h
+    constructor
+    · have e : Finset.Ico (0:ℤ) (((0:ℕ):ℤ)+1) = {0} := by
+        ext x; simp [Finset.mem_Ico]; omega
+      rw [e]; simp
+    · simpa using h_mono 0 (le_refl _) (by simp at h; omega)
+  | succ m ih =>
+    intro h
+    have hm : (m:ℤ) + 1 ≤ P := by push_cast at h; omega
+    obtain ⟨ih1, ih2⟩ := ih hm
+    have hc : hi (m:ℤ) = lo ((m:ℤ)+1) := h_contig m (by omega) (by push_cast at h; omega)
+    have hmono : lo ((m:ℤ)+1) ≤ hi ((m:ℤ)+1) := h_mono _ (by omega) (by push_cast at h; omega)
+    push_cast
+    constructor
+    · rw [int_sum_Ico_succ _ (by omega : (0:ℤ) ≤ (m:ℤ)+1), ih1, hc]
+      exact int_sum_Ico_consecutive f (by rw [← hc]; exact ih2) hmono
+    · rw [hc] at ih2; exact le_trans ih2 hmono
+have hP' : ((P-1).toNat : ℤ) = P - 1 := Int.toNat_of_nonneg (by omega)
+have := (key (P-1).toNat (by rw [hP']; omega)).1
+rw [hP'] at this
+rw [show P - 1 + 1 = P by ring] at this
+rw [this, h_first, h_last]
+"""
+
+
+def lemma_partition_gives_sum_hyps(ctx):
+    from qvc.spec import clause_lemma
+    from qvc.values import SymArr
+
+    def setup(S):
+        P = S.int("P")
+        R = S.symlist("R", P, width=2)
+        lo = SymArr((P,), "int", re=R.comps[0], name="lo")
+        hi = SymArr((P,), "int", re=R.comps[1], name="hi")
+        return dict(P=P, R=R, lo=lo, hi=hi, start=S.int("start"), stop=S.int("stop"))
+    hyps = ["P >= 1", "stop >= start"] + partition("R", "P", "start", "stop")
+    return clause_lemma(ctx, "partition-gives-sum-hypotheses", setup, hyps, SUM_HYPS,
+                        where="props/C20.py (over the contract of _calculate_ranges)")
+
+
 def plan(ctx):
     p = Plan("C20")
     contracts(ctx.registry)
@@ -276,6 +346,8 @@ def plan(ctx):
                    PAR + "block_distributed_range",
                    PAR + "block_distributed_list", PAR + "block_distributed_list#return_index",
                    PAR + "block_distributed_array", PAR + "block_distributed_array#return_index"]
+    p.lemmas = [lemma_partition_gives_sum_hyps]
+    p.lean = [lean.bridge_lemma("blocks_sum", SUM_TYPES, SUM_HYPS, SUM_CONCL, SUM_PROOF)]
     p.replayers = [replayer]
     p.trusted = ["MPI itself (Allreduce = elementwise sum over ranks) is not modelled; the partition lemma is what "
                  "makes a sum over ranks of per-block sums equal the serial sum"]
